@@ -55,6 +55,10 @@ type Scenario struct {
 	Partitions int           `json:"partitions"`
 	Points     []Point       `json:"points"`
 	Queries    []Query       `json:"queries"`
+	// Drops: [after how many points, partition]: the follower's follow stream is dropped
+	// (its connection context is cancelled) and re-established, like server.followSource
+	// does after an error, with the offset of the last entry it received
+	Drops [][2]int `json:"drops"`
 }
 
 var wireCtl *zv.Ctl
@@ -148,6 +152,9 @@ func (l *leaderDB) RegisterQueryHandler(partition int, query planner.QueryCluste
 }
 
 type follower struct {
+	dropMx  sync.Mutex
+	drop    context.CancelFunc // ends the current follow stream
+	drops   int
 	part    int
 	db      *zenodb.DB
 	queryFn planner.QueryClusterFN
@@ -180,7 +187,21 @@ func rows(n *zv.Node, sql string) ([]zv.RawRow, interface{}, error) {
 
 func run(sc *Scenario, scratch string) {
 	emit(map[string]interface{}{"a": "Reset", "scn": sc.Scn})
-	wireCtl.Locked(func() { wireCtl.FollowTables = len(sc.Tables) })
+	wireCtl.Locked(func() {
+		wireCtl.OnLeaderJoin = func(leader string, f common.FollowerID, table string, off, earliest [2]int64) {
+			emit(map[string]interface{}{"a": "Ev", "e": "join", "f": fmt.Sprintf("f%d", f.Partition), "t": table, "off": off, "earliest": earliest})
+		}
+		wireCtl.OnLeaderEntry = func(leader string, off [2]int64, data []byte, included []common.FollowerID) {
+			var inc []string
+			for _, fid := range included {
+				inc = append(inc, fmt.Sprintf("f%d", fid.Partition))
+			}
+			emit(map[string]interface{}{"a": "Ev", "e": "entry", "off": off, "incl": inc})
+		}
+		wireCtl.ResetScenario()
+		wireCtl.Gated = false
+		wireCtl.FollowTables = len(sc.Tables)
+	})
 	base := filepath.Join(scratch, sc.Scn)
 	os.RemoveAll(base)
 	defer os.RemoveAll(base)
@@ -261,8 +282,22 @@ func run(sc *Scenario, scratch string) {
 				defer close(done)
 				ctx := fctx
 				for ctx.Err() == nil {
-					source, next, err := followClient.Follow(ctx, fo)
+					cctx, ccancel := context.WithCancel(ctx)
+					f.dropMx.Lock()
+					f.drop = ccancel
+					f.dropMx.Unlock()
+					{
+						tabs := map[string][2]int64{}
+						for _, part := range fo.Partitions {
+							for _, pt := range part.Tables {
+								tabs[pt.Name] = zenodb.VerifOffset(pt.Offsets[1])
+							}
+						}
+						emit(map[string]interface{}{"a": "Ev", "e": "connect", "f": fmt.Sprintf("f%d", f.part), "tabs": tabs, "earliest": zenodb.VerifOffset(fo.EarliestOffset)})
+					}
+					source, next, err := followClient.Follow(cctx, fo)
 					if err != nil {
+						ccancel()
 						time.Sleep(20 * time.Millisecond)
 						continue
 					}
@@ -272,9 +307,19 @@ func run(sc *Scenario, scratch string) {
 							break
 						}
 						if err := insert(data, off, source); err != nil {
+							emit(map[string]interface{}{"a": "Ev", "e": "inserterr", "f": fmt.Sprintf("f%d", f.part), "off": zenodb.VerifOffset(off), "err": err.Error()})
 							break
 						}
+						emit(map[string]interface{}{"a": "Ev", "e": "deliver", "f": fmt.Sprintf("f%d", f.part), "off": zenodb.VerifOffset(off)})
 						fo.EarliestOffset = off
+					}
+					ccancel()
+					// server.followSource waits at least a second before it follows again; a
+					// request that overtakes its predecessor's registration with the leader
+					// would leave the leader talking to the dead stream (see DESIGN.md, section 8)
+					select {
+					case <-ctx.Done():
+					case <-time.After(time.Second):
 					}
 				}
 			}()
@@ -318,7 +363,7 @@ func run(sc *Scenario, scratch string) {
 		}
 	}
 	// points enter through the rpc insert stream
-	insertAll := func(addr string) error {
+	insertAll := func(addr string, withDrops bool) error {
 		c, err := rpc.Dial(addr, &rpc.ClientOpts{Password: "pw"})
 		if err != nil {
 			return err
@@ -328,7 +373,23 @@ func run(sc *Scenario, scratch string) {
 		if err != nil {
 			return err
 		}
-		for _, p := range sc.Points {
+		for pi, p := range sc.Points {
+			if withDrops {
+				for _, d := range sc.Drops {
+					if d[0] == pi && d[1] < len(fols) {
+						fl := fols[d[1]]
+						fl.dropMx.Lock()
+						if fl.drop != nil {
+							fl.drop()
+							fl.drops++
+							emit(map[string]interface{}{"a": "Ev", "e": "drop", "f": fmt.Sprintf("f%d", fl.part), "afterPoint": pi})
+						}
+						fl.dropMx.Unlock()
+						// let some of the entries inserted so far be in flight when the next ones arrive
+						time.Sleep(time.Duration(d[0]%3) * 5 * time.Millisecond)
+					}
+				}
+			}
 			dims, err := zv.ValueMap(p.Dims, time.Second)
 			if err != nil {
 				return err
@@ -354,11 +415,11 @@ func run(sc *Scenario, scratch string) {
 		}
 		return nil
 	}
-	if err := insertAll(soloAddr); err != nil {
+	if err := insertAll(soloAddr, false); err != nil {
 		fail(fmt.Errorf("insert into the standalone server: %v", err))
 		return
 	}
-	if err := insertAll(leaderAddr); err != nil {
+	if err := insertAll(leaderAddr, true); err != nil {
 		fail(fmt.Errorf("insert into the leader: %v", err))
 		return
 	}
@@ -391,7 +452,22 @@ func run(sc *Scenario, scratch string) {
 		}
 		return t
 	}
-	deadline := time.Now().Add(40 * time.Second)
+	// the standalone database has caught up when every table has decided on every point
+	// and applied what it accepted (hook counters); the partitions have caught up when
+	// together they hold as many points as it does
+	if err := wireCtl.WaitCond(40*time.Second, "the standalone database to catch up", func() bool {
+		for _, t := range sc.Tables {
+			if wireCtl.Verdicts[t.Name] < len(sc.Points) || wireCtl.Applies[t.Name] < wireCtl.Offers[t.Name] {
+				return false
+			}
+		}
+		return true
+	}); err != nil {
+		fail(err)
+		return
+	}
+	deadline := time.Now().Add(30 * time.Second)
+	caughtUp := true
 	for _, t := range sc.Tables {
 		for {
 			advance()
@@ -400,23 +476,41 @@ func run(sc *Scenario, scratch string) {
 			for _, f := range fols {
 				got += count(f.db, t.Name)
 			}
-			soloDone := true
-			if len(sc.Points) > 0 && want <= 0 {
-				soloDone = false
-			}
-			if soloDone && got == want && atomic.LoadInt64(&leader.registered) >= int64(sc.Partitions) {
-				// stable?
-				time.Sleep(30 * time.Millisecond)
-				if count(solo.DB, t.Name) == want {
-					break
-				}
+			if got == want && atomic.LoadInt64(&leader.registered) >= int64(sc.Partitions) {
+				break
 			}
 			if time.Now().After(deadline) {
-				fail(fmt.Errorf("table %s: the partitions hold %v points, the standalone database %v", t.Name, got, want))
-				return
+				caughtUp = false
+				emit(map[string]interface{}{"a": "NotCaughtUp", "t": t.Name, "partitions": got, "standalone": want})
+				break
 			}
 			time.Sleep(20 * time.Millisecond)
 		}
+	}
+	// what every node holds (decoded cells), for the comparison partitions together = standalone
+	views := func(n *zv.Node, name string) {
+		for _, t := range sc.Tables {
+			rows, _, err := n.Probe("SELECT * FROM "+t.Name, true, 10*time.Second)
+			line := map[string]interface{}{"a": "WireView", "node": name, "t": t.Name, "rows": rows}
+			if rows == nil {
+				line["rows"] = []zv.Row{}
+			}
+			if err != nil {
+				line["err"] = err.Error()
+			}
+			emit(line)
+		}
+	}
+	views(solo, "standalone")
+	for _, f := range fols {
+		f.dropMx.Lock()
+		d := f.drops
+		f.dropMx.Unlock()
+		views(&zv.Node{DB: f.db, Opts: opts, Tables: sc.Tables}, fmt.Sprintf("f%d", f.part))
+		emit(map[string]interface{}{"a": "WireDrops", "node": fmt.Sprintf("f%d", f.part), "drops": d})
+	}
+	if !caughtUp {
+		return
 	}
 	soloClient, err := rpc.Dial(soloAddr, &rpc.ClientOpts{Password: "pw"})
 	if err != nil {
